@@ -68,7 +68,10 @@ Paths(b) == <<
   P(b, Bb), Ix(b, Lit(S(Bb))), P(b, B_size), P(b, B_first), P(b, B_last),
   P(P(b, Cc), Dd), Ix(P(b, Cc), Lit(S(Dd))), P(b, Xx), P(P(b, Xx), Y), Ix(b, Lit(IntV(0))), Ix(b, Lit(IntV(0 - 1))),
   P(Ix(b, Lit(IntV(0))), Bb), P(P(b, B_first), Bb), Ix(b, Lit(Nil)), b, Ix(Ix(b, Lit(S(Cc))), Lit(S(Dd))),
-  P(P(b, Bb), B_size), Ix(b, Var(<<117>>))
+  P(P(b, Bb), B_size), Ix(b, Var(<<117>>)),
+  \* the names of the built-in properties as subscripts: a subscript is a key or an index, never a property
+  Ix(b, Lit(S(B_size))), Ix(b, Lit(S(B_first))), Ix(b, Lit(S(B_last))), Ix(b, Var(<<107, 115>>)), Ix(P(b, Bb), Lit(S(B_size))),
+  Ix(Ix(b, Lit(IntV(0))), Lit(S(B_first)))
 >>
 
 \* --------------------------------------------------------------- pipeline
@@ -103,7 +106,9 @@ LitU == << IntV(0), IntV(7), IntV(0 - 3), IntV(12345), Flt(5, 2), Flt(0 - 3, 4),
            S(<<105, 116, 34, 115>>), S(<<105, 116, 39, 115>>), Bool(TRUE), Bool(FALSE), Nil, S(<<195, 169>>), S(<<110, 105, 108>>),
            S(<<49>>), S(<<97, 124, 98>>), S(<<97, 58, 32, 98, 44, 99>>),
            \* literals that differ only in the white space they contain
-           S(<<112, 32, 113>>), S(<<112, 32, 32, 113>>), S(<<112, 10, 113>>), S(<<112, 9, 113>>), S(<<32>>), S(<<32, 32>>), S(<<10>>) >>
+           S(<<112, 32, 113>>), S(<<112, 32, 32, 113>>), S(<<112, 10, 113>>), S(<<112, 9, 113>>), S(<<32>>), S(<<32, 32>>), S(<<10>>),
+           \* a quote character of the other kind at the edges of the literal, or the literal itself
+           S(<<39, 97, 39>>), S(<<34, 97, 34>>), S(<<39>>), S(<<34>>), S(<<97, 39>>), S(<<34, 97>>), S(<<39, 39>>), S(<<34, 34, 97>>) >>
 \* ... and all of them in one template, so that they meet in one parse
 WsLits == <<S(<<112, 32, 113>>), S(<<112, 32, 32, 113>>), S(<<112, 10, 113>>), S(<<112, 9, 113>>), S(<<112, 32, 32, 32, 113>>)>>
 WsProg(k) ==
@@ -222,7 +227,7 @@ ProgOf(x) ==
 
 EnvOf2(x) ==
   CASE x.g = "index" -> << <<A, ArrOf(x.len)>>, <<I, IdxU[x.i]>> >>
-    [] x.g = "look" -> << <<A, BaseU[x.b]>> >>
+    [] x.g = "look" -> << <<A, BaseU[x.b]>>, <<<<107, 115>>, S(B_size)>> >>
     [] x.g = "pipe" -> PipeEnv(x.r)
     [] x.g = "bad" -> << <<A, S(<<97>>)>> >>
     [] x.g = "lit" -> << <<A, LitU[x.v]>> >>
